@@ -16,24 +16,6 @@ open PebblesVerif.Gen.Merge
 
 theorem C04_facts : facts = expected := by decide
 
-/-- routable field of a definition -/
-def Routable (F : Facts) (d : TypeDef) (g : FieldDef) : Prop :=
-  d.kind = .object ∧ isBuiltinName d.name = false ∧ isBuiltinName g.name = false ∧ g.name ≠ idFieldName ∧
-    ¬ (isRootName d.name = true ∧ isNodeField F g = true)
-
-theorem stores_of_routable {F : Facts} (hF : F.tumNodeFieldRootOnly = true) {i : MergeInput} {d : TypeDef} {g : FieldDef}
-    (hd : d ∈ i.schema.types) (hg : g ∈ d.fields) (hr : Routable F d g) : Stores F i.schema.types d.name g.name := by
-  obtain ⟨hk, hb, hgb, hid, hnode⟩ := hr
-  refine ⟨d, hd, rfl, hk, hb, g, hg, rfl, ?_, hid⟩
-  unfold skipsField
-  simp only [hF, ↓reduceIte, hgb, Bool.false_or, Bool.and_eq_false_iff]
-  by_cases h1 : isRootName d.name = true
-  · right
-    cases h2 : isNodeField F g
-    · rfl
-    · exact absurd ⟨h1, h2⟩ hnode
-  · left; simpa using h1
-
 /-- C04, a route is an owner: `tm[T][f] = u` ⇒ `u` is the url of an input whose schema declares
     `f` on the object type `T`. Full (no hypothesis, not even that the merge succeeds). -/
 theorem C04_declares (ins : List MergeInput) (T f u : String) (h : Tum.get? (build facts ins) T f = some u) :
@@ -86,39 +68,6 @@ theorem C04_total_result (ins : List MergeInput) (R : Schema) (h : mergeSchema f
     obtain ⟨j, hj, hju, hdecl, _⟩ := C04_declares _ _ _ _ hu
     exact ⟨j, hj, hju, hdecl⟩
 
-/-- merge succeeded ⇒ no two services declare the same root field (the field named `node` aside) -/
-theorem root_fields_disjoint {ins : List MergeInput} {R : Schema} (h : mergeSchema E ins = .ok R)
-    (hroot : ∀ i ∈ ins, RootsAreObjects i.schema) (hnd : ∀ i ∈ ins, TypesNodup i.schema) : ins.Pairwise NoRootClash := by
-  cases ins with
-  | nil => exact List.Pairwise.nil
-  | cons i0 rest =>
-    obtain ⟨types, ht, _, _⟩ := mergeSchema_ok h
-    obtain ⟨hA, hB⟩ := foldInputs_clash rest _ _ _ _ ht (hnd i0 List.mem_cons_self)
-      (fun i hi => hroot i (List.mem_cons_of_mem _ hi))
-    rw [List.pairwise_cons]
-    refine ⟨?_, hB⟩
-    intro j hj T f hT hb hdi hdj
-    apply hA j hj T f hT hb _ hdj
-    obtain ⟨d, hd, hdn, g, hg, hgn⟩ := hdi
-    exact ⟨d, hd, hdn, hroot i0 List.mem_cons_self d hd (hdn ▸ hT), g, hg, hgn⟩
-
-theorem noRootClash_symm {i j : MergeInput} (h : NoRootClash i j) : NoRootClash j i :=
-  fun T f hT hb hj hi => h T f hT hb hi hj
-
-theorem pairwise_mem {l : List MergeInput} (h : l.Pairwise NoRootClash) {i j : MergeInput} (hi : i ∈ l) (hj : j ∈ l)
-    (hne : i ≠ j) : NoRootClash i j := by
-  induction l with
-  | nil => cases hi
-  | cons x xs ih =>
-    rw [List.pairwise_cons] at h
-    rcases List.mem_cons.mp hi with hix | hi'
-    · rcases List.mem_cons.mp hj with hjx | hj'
-      · exact absurd (hix.trans hjx.symm) hne
-      · exact hix ▸ h.1 j hj'
-    · rcases List.mem_cons.mp hj with hjx | hj'
-      · exact hjx ▸ noRootClash_symm (h.1 i hi')
-      · exact ih h.2 hi' hj'
-
 /-- C04, root fields: after a successful merge every root field (other than the one named
     `node`) is routed to the one service that declares it: the route is a declarer, and every
     service that declares the field is that one. Full. -/
@@ -149,8 +98,8 @@ theorem C04_node_iff_result (ins : List MergeInput) (R : Schema) (h : mergeSchem
     (r : TypeDef) (hr : r ∈ R.types) (hk : r.kind = .object) (hb : isBuiltinName r.name = false)
     (hN : r.name ≠ nodeInterfaceName) :
     Tum.isNode? (build facts ins) r.name = some true ↔ implementsNode r = true := by
-  have hNI := C03_no_invention ins R h hroot
   rw [C04_facts] at h
+  have hNI := noInvention_E ins R h hroot
   have hnodup : (R.types.map (·.name)).Nodup := by
     cases ins with
     | nil => cases h
